@@ -2,15 +2,15 @@ import ThermoVerif.Model.Phases
 import Driver.Util
 /-
 Line protocol for C12 (phase representation of streams).  One op per line; the answer is the canonical
-state of the stream and of every phase view handed out so far, prefixed by `err=<Class> ` when the op
-raised (an error leaves the state as it was).  See harness/props/c12.py for the op list.
+state of every stream of the universe and of every phase view handed out so far, prefixed by
+`err=<Class> ` when the op raised (an error leaves the state as it was).  See harness/props/c12.py for
+the op list.
 -/
 namespace Driver.C12
 open ThermoVerif.Phases Driver
 
 structure St where
   w : World := World.init
-  started : Bool := false
 
 def parsePh : String → Option Ph
   | "L" => some .L | "S" => some .S | "g" => some .g | "l" => some .l | "s" => some .s | _ => none
@@ -31,22 +31,39 @@ def parseFlows (n : Nat) (t : String) : Option (List (Ph × (Nat → Rat))) :=
     | [p, vs] => do some ((← parsePh p), (← parseVals n vs))
     | _ => none
 
+def parseBool : String → Option Bool
+  | "1" => some true | "0" => some false | _ => none
+
 def showVals (n : Nat) (v : Nat → Rat) : String :=
   "[" ++ joinWith "," ((List.range n).map (fun i => showRat (v i))) ++ "]"
 
+/-- smallest stream index with the same value of `f` -/
+def cls (w : World) (f : Nat → Bool) : String :=
+  match (List.range w.nStr).find? f with
+  | some j => toString j | none => "-"
+
+def showStream (w : World) (k : Nat) : String :=
+  let s := w.str k
+  let kd := if s.multi then "M" else "S"
+  let cache := if s.multi then (Ph.all.filterMap fun p =>
+      ((w.cacheOf k).find? (fun c => c.1 == p)).map (fun c => s!"{p.toString}>h{c.2}")) else []
+  s!"s{k}:k={kd} ph={joinWith "," ((w.phases k).map Ph.toString)} " ++
+  s!"rows={joinWith ";" ((w.pr k).map (fun x => showVals w.n (w.row x.2)))} " ++
+  s!"T={showRat (w.temp k)} P={showRat (w.pres k)} " ++
+  s!"id={cls w (fun j => (w.str j).imol == s.imol)}/{cls w (fun j => w.rows j == w.rows k)}/" ++
+  s!"{cls w (fun j => (w.str j).tc == s.tc)}/{cls w (fun j => (w.str j).cache == s.cache)} " ++
+  s!"cache={joinWith "," cache}"
+
 def showState (w : World) : String :=
-  let s := w.s
-  let k := if s.multi then "M" else "S"
-  let cache := (Ph.all.filterMap fun p =>
-      (s.cache.find? (fun c => c.1 == p)).map (fun c => s!"{p.toString}>h{c.2}"))
   let hs := (List.range w.nView).map fun h =>
     let v := w.view h
-    let att := match s.pr.find? (fun x => x.2 == v.row) with
-      | some x => x.1.toString | none => "-"
-    s!"h{h}:{v.phase.toString}@{att}:tc{if v.tc == s.tc then 1 else 0}:{showVals w.n (w.row v.row)}"
-  s!"k={k} ph={joinWith "," (s.phases.map Ph.toString)} " ++
-  s!"rows={joinWith ";" (s.pr.map (fun x => showVals w.n (w.row x.2)))} " ++
-  s!"T={showRat w.temp} P={showRat w.pres} cache={joinWith "," cache} hs={joinWith "|" hs}"
+    let att := match (List.range w.nStr).findSome? (fun k =>
+        ((w.pr k).find? (fun x => x.2 == v.row)).map (fun x => s!"{k}.{x.1.toString}")) with
+      | some s => s | none => "-"
+    s!"h{h}:{v.phase.toString}@{att}:tc{cls w (fun j => (w.str j).tc == v.tc)}:{showVals w.n (w.row v.row)}"
+  joinWith " || " ((List.range w.nStr).map (showStream w)) ++ s!" || hs={joinWith "|" hs}"
+
+def parseNats (t : String) : Option (List Nat) := (splitComma t).mapM (·.toNat?)
 
 def parseOp (w : World) (line : String) : Option Op :=
   match splitWs line with
@@ -59,44 +76,46 @@ def parseOp (w : World) (line : String) : Option Op :=
     else if fl.all (fun x => ps.contains x.1) then
       some (.newM ps (← parseRat? T) (← parseRat? P) fl)
     else none
-  | ["sphases", ps] => do
+  | ["sphases", k, ps] => do
     let ps ← parsePhs ps
-    if ps.isEmpty then none else some (.setPhases ps)
-  | ["sphase", ls] => do some (.setPhase (← parseLetters ls))
-  | ["reduce"] => some .reduce
-  | ["asstream"] => some .asStream
-  | ["vle"] => some .vle
-  | ["lle"] => some .lle
-  | ["sle"] => some .sle
-  | ["empty"] => some .empty
-  | ["view", p] => do some (.view (← parsePh p))
+    if ps.isEmpty then none else some (.setPhases (← k.toNat?) ps)
+  | ["sphase", k, ls] => do some (.setPhase (← k.toNat?) (← parseLetters ls))
+  | ["reduce", k] => do some (.reduce (← k.toNat?))
+  | ["asstream", k] => do some (.asStream (← k.toNat?))
+  | ["vle", k] => do some (.vle (← k.toNat?))
+  | ["lle", k] => do some (.lle (← k.toNat?))
+  | ["sle", k] => do some (.sle (← k.toNat?))
+  | ["empty", k] => do some (.empty (← k.toNat?))
+  | ["view", k, p] => do some (.view (← k.toNat?) (← parsePh p))
   | ["wview", h, i, x] => do
     let i ← i.toNat?
     if i < w.n then some (.wView (← h.toNat?) i (← parseRat? x)) else none
-  | ["wpar", p, i, x] => do
+  | ["wpar", k, p, i, x] => do
     let i ← i.toNat?
     let p ← if p == "-" then some none else (parsePh p).map some
-    if i < w.n then some (.wPar p i (← parseRat? x)) else none
-  | ["wT", x] => do some (.wT (← parseRat? x))
-  | ["wP", x] => do some (.wP (← parseRat? x))
+    if i < w.n then some (.wPar (← k.toNat?) p i (← parseRat? x)) else none
+  | ["wT", k, x] => do some (.wT (← k.toNat?) (← parseRat? x))
+  | ["wP", k, x] => do some (.wP (← k.toNat?) (← parseRat? x))
   | ["wvT", h, x] => do some (.wvT (← h.toNat?) (← parseRat? x))
   | ["wvP", h, x] => do some (.wvP (← h.toNat?) (← parseRat? x))
   | ["vphase", h, p] => do some (.vPhase (← h.toNat?) (← parsePh p))
-  | ["save"] => some .save
-  | ["restore", k] => do some (.restore (← k.toNat?))
+  | ["save", k] => do some (.save (← k.toNat?))
+  | ["restore", k, idx] => do some (.restore (← k.toNat?) (← idx.toNat?))
+  | ["unlink", k] => do some (.unlink (← k.toNat?))
+  | ["link", k, j, fl, tp] => do some (.link (← k.toNat?) (← j.toNat?) (← parseBool fl) (← parseBool tp))
+  | ["copylike", k, j] => do some (.copyLike (← k.toNat?) (← j.toNat?))
+  | ["mix", k, js] => do some (.mixFrom (← k.toNat?) (← parseNats js))
+  | ["thermo", k, t] => do some (.resetThermo (← k.toNat?) (← t.toNat?))
+  | ["proxy", k] => do some (.proxy (← k.toNat?))
   | _ => none
-
-def isNew : Op → Bool
-  | .newS .. | .newM .. => true
-  | _ => false
 
 def step (st : St) (line : String) : St × String :=
   match parseOp st.w line with
   | none => (st, "bad-op")
   | some op =>
-    if !st.started && !isNew op then (st, "err=NoStream") else
     match st.w.step op with
-    | .ok w' => ({ w := w', started := true }, showState w')
+    | .ok w' => ({ w := w' }, showState w')
+    | .error .outOfModel => (st, "bad-op")
     | .error e => (st, s!"err={e.toString} " ++ showState st.w)
 
 def main : IO Unit := Driver.loop ({} : St) step
